@@ -1,5 +1,7 @@
 (** C15 — Quoted text survives parsing and expansion unchanged. *)
 From GoSh Require Import Base.Bytes Base.Outcome Store.Env Expand.Expand Lex.Quote Lex.QuoteProofs.
+From GoSh Require Import Pattern.Regex Pattern.PCompile Expand.QuotedLiteral.
+From GoShGen Require Import Extracted.
 
 (** For every rune string s written under one of the POSIX literal quotings, every text that
     follows the word (end of input, blank or operator), every environment (IFS, HOME, positional
@@ -39,7 +41,55 @@ Theorem C15_mixed_parts :
 Proof. exact expand_literal_word. Qed.
 Print Assumptions C15_mixed_parts.
 
+(** "In Pattern mode its characters are escaped so that they match only themselves": what Pattern mode
+    yields for quoted text is [esc_pattern text] (the theorems above, [expected]); the set of escaped
+    characters is read from the source ([Extracted.pattern_escaped]).  For every rune string the
+    pattern compiler turns the escaped text into literal items only, one per character, in order
+    ([esc_runes] is [esc_pattern] on runes); and a bracket expression whose content is quoted text
+    compiles to one class whose members are exactly the characters of the text -- no range, no
+    negation, no early end.  The matcher's behaviour on literal items and classes is C12. *)
+Theorem C15_pattern_text_is_literal :
+  forall s f g, (length s <= f)%nat ->
+    exists l, citems f g (esc_runes s) = COk l /\ map fst l = map RLit s.
+Proof. exact quoted_is_literal. Qed.
+Print Assumptions C15_pattern_text_is_literal.
+
+Theorem C15_quoted_in_bracket_is_member :
+  forall s g f rest, s <> [] -> (0 < f)%nat ->
+    citems f g (91 :: esc_runes s ++ 93 :: rest) =
+    match citems (f - 1) g rest with
+    | COk l => COk ((RClass false (map CChar s), 91 :: txt (emit s ++ [93])) :: l)
+    | CErr => CErr
+    | CUnmodelled => CUnmodelled
+    end.
+Proof. exact quoted_in_bracket. Qed.
+Print Assumptions C15_quoted_in_bracket_is_member.
+
+Theorem C15_bracket_members_are_the_text :
+  forall s c, existsb (fun ci => citem_matches ci c) (map CChar s) = memb c s.
+Proof. exact quoted_class_members. Qed.
+Print Assumptions C15_bracket_members_are_the_text.
+
+(** The same for the pattern text itself (bytes), when the quoted text is ASCII. *)
+Theorem C15_ascii_pattern_text_is_literal :
+  forall s g, ascii s = true ->
+    exists l, compile1 g (esc_pattern s) = COk l /\ map fst l = map RLit s.
+Proof. exact quoted_ascii_is_literal. Qed.
+Print Assumptions C15_ascii_pattern_text_is_literal.
+
+Theorem C15_ascii_quoted_in_bracket :
+  forall s g, ascii s = true -> s <> [] ->
+    compile1 g (91 :: esc_pattern s ++ [93]) = COk [(RClass false (map CChar s), 91 :: txt (emit s ++ [93]))].
+Proof. exact quoted_ascii_in_bracket. Qed.
+Print Assumptions C15_ascii_quoted_in_bracket.
+
+(** the premises are met by texts made of the very characters that needed the repair (X65) *)
+Example C15_bracket_witness :
+  compile1 true (91 :: esc_pattern [93; 45; 33; 94; 97] ++ [93]) = COk [(RClass false [CChar 93; CChar 45; CChar 33; CChar 94; CChar 97], [91; 92; 93; 92; 45; 92; 33; 92; 94; 97; 93])].
+Proof. vm_compute. reflexivity. Qed.
+
 (** Not proved: the default mode with pathname expansion enabled (the escaped pattern reaches Glob,
     whose literal fast path returns the same string when such a file exists -- observed by the
-    harness with matching files in the working directory); that the escaped text matches only
-    itself is C12's denotation of an all-literal pattern. *)
+    harness with matching files in the working directory); that a sequence of literal items matches only the
+    text itself is C12's denotation; for non-ASCII text the decoding of the pattern bytes into runes
+    (syms_of) is covered by the correspondence check, the statements above start from the runes. *)
